@@ -14,7 +14,10 @@
       once (the extractor refuses bounds that mention `len` or a variable assigned in the body); variables assigned in the
       body are local to one iteration (the extractor refuses assignments to variables declared outside the loop body).
 -/
+import PolyVerif.Model.Vec
+
 namespace PolyVerif.LoopIR
+open PolyVerif
 
 inductive E where
   | lit (n : Nat)
@@ -27,6 +30,33 @@ inductive E where
   | div (a b : E)
   deriving Repr, DecidableEq
 
+/-- float64 expressions (variables and parameters are numbered separately from the integers) -/
+inductive FE where
+  | nat (e : E)            -- `float64(e)`, and integer-valued constants (`0`, `2.0`): the natural `e` cast to the scalar
+  | lit (num den : Nat)    -- a non-integral decimal constant `num/den` (`den` a power of ten), `Scalar.lit num den`
+  | pi                     -- `math.Pi`
+  | fpar (k : Nat)         -- float parameter `k` (`radius`, `c.Radius`, `c.Height`, `h.Radius`)
+  | fvar (k : Nat)         -- float local variable `k`
+  | add (a b : FE)
+  | sub (a b : FE)
+  | mul (a b : FE)
+  | div (a b : FE)
+  | neg (a : FE)
+  | sin (a : FE)
+  | cos (a : FE)
+  deriving Repr
+
+/-- `vector3.Float64` expressions -/
+inductive VE where
+  | new (x y z : FE)       -- `vector3.New(x, y, z)`
+  | vvar (k : Nat)         -- vector local variable `k`
+  | scale (v : VE) (t : FE)
+  | add (v w : VE)
+  | normalized (v : VE)
+  | zero                   -- `vector3.Zero[float64]()`
+  | at (s : Nat) (e : E)   -- `slice_s[e]`
+  deriving Repr
+
 inductive S where
   | skip
   | seq (a b : S)
@@ -34,6 +64,11 @@ inductive S where
   | push (s : Nat) (es : List E)
   | alloc (s : Nat) (n : E)
   | loop (k : Nat) (lo hi : E) (incl : Bool) (body : S)
+  -- float / vector statements (ignored by the integer interpreter `exec`, interpreted by `execV`)
+  | fassign (k : Nat) (e : FE)             -- `x := <float expr>`
+  | vassign (k : Nat) (v : VE)             -- `v := <vector expr>`
+  | vpush (s : Nat) (vs : List VE)         -- the vectors appended by `s = append(s, vs…)`; emitted BEFORE the matching `push`
+  | vset (s : Nat) (i : E) (v : VE)        -- `s[i] = v`
   deriving Repr
 
 abbrev Env := Nat → Nat
@@ -67,6 +102,10 @@ def exec : S → Env → St → Env × St
       let l := evalE env st lo
       let h := evalE env st hi + (if incl then 1 else 0)
       (env, (List.range (h - l)).foldl (fun st i => (exec body (upd env k (l + i)) st).2) st)
+  | .fassign _ _, env, st => (env, st)
+  | .vassign _ _, env, st => (env, st)
+  | .vpush _ _, env, st => (env, st)
+  | .vset _ _ _, env, st => (env, st)
 
 /-- an extracted constructor: `params` integer parameters (variables `0 .. params-1`), `guards`: the constructor panics
     when some `(a, b)` has `a < b`; `idx` / `verts`: the slices handed to `NewTriangleMesh` / set as `Position` -/
@@ -75,6 +114,9 @@ structure Prog where
   guards : List (E × E)
   idx : Nat
   verts : Nat
+  /-- the slice set as `NormalAttribute`, with `true` when it is passed through `vector3.Array(..).Normalized()`;
+      `none`: no normals supplied -/
+  nrm : Option (Nat × Bool) := none
   body : S
   deriving Repr
 
@@ -92,5 +134,86 @@ def Prog.indices (p : Prog) (args : List Nat) : List Nat := p.run args p.idx
 
 /-- the extracted number of vertices -/
 def Prog.nverts (p : Prog) (args : List Nat) : Nat := (p.run args p.verts).length
+
+/-! ## float / vector interpretation, polymorphic over the scalar -/
+
+section V
+variable {α : Type} [Scalar α]
+
+/-- local (iteration-scoped) variables of the float/vector interpreter -/
+structure Loc (α : Type) where
+  env : Env
+  fenv : Nat → α
+  venv : Nat → V3 α
+
+/-- state threaded through the loops by the float/vector interpreter: the integer slices as in `exec` (they give the
+    lengths) and the contents of ONE vector slice, the target `tgt`, as a function index ↦ vector -/
+abbrev VSt (α : Type) := St × (Nat → V3 α)
+
+def evalF (fpar : Nat → α) (ℓ : Loc α) (st : St) : FE → α
+  | .nat e => ((evalE ℓ.env st e : Nat) : α)
+  | .lit n d => Scalar.lit n d
+  | .pi => Scalar.pi
+  | .fpar k => fpar k
+  | .fvar k => ℓ.fenv k
+  | .add a b => evalF fpar ℓ st a + evalF fpar ℓ st b
+  | .sub a b => evalF fpar ℓ st a - evalF fpar ℓ st b
+  | .mul a b => evalF fpar ℓ st a * evalF fpar ℓ st b
+  | .div a b => evalF fpar ℓ st a / evalF fpar ℓ st b
+  | .neg a => -(evalF fpar ℓ st a)
+  | .sin a => Scalar.sin (evalF fpar ℓ st a)
+  | .cos a => Scalar.cos (evalF fpar ℓ st a)
+
+/-- vector expressions; `at s e` reads the target slice (reads of other vector slices are not modelled: `default`) -/
+def evalV (fpar : Nat → α) (tgt : Nat) (ℓ : Loc α) (m : VSt α) : VE → V3 α
+  | .new x y z => V3.New (evalF fpar ℓ m.1 x) (evalF fpar ℓ m.1 y) (evalF fpar ℓ m.1 z)
+  | .vvar k => ℓ.venv k
+  | .scale v t => (evalV fpar tgt ℓ m v).Scale (evalF fpar ℓ m.1 t)
+  | .add v w => (evalV fpar tgt ℓ m v).Add (evalV fpar tgt ℓ m w)
+  | .normalized v => (evalV fpar tgt ℓ m v).Normalized
+  | .zero => V3.New ((0 : Nat) : α) ((0 : Nat) : α) ((0 : Nat) : α)
+  | .at s e => if s = tgt then m.2 (evalE ℓ.env m.1 e) else default
+
+/-- write the vectors `vs` at the positions `n, n+1, …` -/
+def writeAt (f : Nat → V3 α) : Nat → List (V3 α) → Nat → V3 α
+  | _, [] => f
+  | n, v :: r => writeAt (upd f n v) (n + 1) r
+
+/-- the float/vector interpreter for the vector slice `tgt`.  Integer statements act as in `exec`; `vpush s vs` (emitted
+    before the matching integer `push`) writes `vs` at the current end of slice `s`, `vset s i v` writes at index `i` —
+    both only when `s = tgt`; locals assigned in a loop body are iteration-scoped. -/
+def execV (fpar : Nat → α) (tgt : Nat) : S → Loc α → VSt α → Loc α × VSt α
+  | .skip, ℓ, m => (ℓ, m)
+  | .seq a b, ℓ, m => let r := execV fpar tgt a ℓ m; execV fpar tgt b r.1 r.2
+  | .assign k e, ℓ, m => ({ ℓ with env := upd ℓ.env k (evalE ℓ.env m.1 e) }, m)
+  | .push s es, ℓ, m => (ℓ, (upd m.1 s (m.1 s ++ es.map (evalE ℓ.env m.1)), m.2))
+  | .alloc s n, ℓ, m => (ℓ, (upd m.1 s (List.replicate (evalE ℓ.env m.1 n) 0), m.2))
+  | .loop k lo hi incl body, ℓ, m =>
+      let l := evalE ℓ.env m.1 lo
+      let h := evalE ℓ.env m.1 hi + (if incl then 1 else 0)
+      (ℓ, (List.range (h - l)).foldl (fun m i => (execV fpar tgt body { ℓ with env := upd ℓ.env k (l + i) } m).2) m)
+  | .fassign k e, ℓ, m => ({ ℓ with fenv := upd ℓ.fenv k (evalF fpar ℓ m.1 e) }, m)
+  | .vassign k v, ℓ, m => ({ ℓ with venv := upd ℓ.venv k (evalV fpar tgt ℓ m v) }, m)
+  | .vpush s vs, ℓ, m =>
+      (ℓ, (m.1, if s = tgt then writeAt m.2 (m.1 s).length (vs.map (evalV fpar tgt ℓ m)) else m.2))
+  | .vset s i v, ℓ, m =>
+      (ℓ, (m.1, if s = tgt then upd m.2 (evalE ℓ.env m.1 i) (evalV fpar tgt ℓ m v) else m.2))
+
+def Loc.init (args : List Nat) : Loc α :=
+  { env := Prog.env args, fenv := fun _ => ((0 : Nat) : α), venv := fun _ => default }
+
+/-- contents of the vector slice `tgt` after running the constructor with integer parameters `args` and float
+    parameters `fargs` -/
+def Prog.vslice (p : Prog) (tgt : Nat) (args : List Nat) (fargs : List α) : Nat → V3 α :=
+  (execV (fun k => fargs.getD k ((0 : Nat) : α)) tgt p.body (Loc.init args) (fun _ => [], fun _ => default)).2.2
+
+/-- the extracted vertex positions: index ↦ vector -/
+def Prog.positions (p : Prog) (args : List Nat) (fargs : List α) : Nat → V3 α := p.vslice p.verts args fargs
+
+/-- the extracted supplied normals (`none` when the constructor supplies none) -/
+def Prog.normals (p : Prog) (args : List Nat) (fargs : List α) : Option (Nat → V3 α) :=
+  p.nrm.map fun sn => if sn.2 then fun v => (p.vslice sn.1 args fargs v).Normalized else p.vslice sn.1 args fargs
+
+end V
 
 end PolyVerif.LoopIR
